@@ -226,12 +226,18 @@ impl ByteCompiler<'_> {
                 self.register_allocator.dealloc(is_return);
 
                 self.patch_jump(return_method_undefined);
-                self.patch_jump(resume_return);
 
                 if self.is_async() {
+                    // Only the received value is awaited (no `return` method); the value of
+                    // a done result of `return()` is returned as it is.
                     self.bytecode.emit_await(dst.variable());
                     self.bytecode.emit_pop();
+                    let awaited = self.jump();
+                    self.patch_jump(resume_return);
+                    self.push_from_register(dst);
+                    self.patch_jump(awaited);
                 } else {
+                    self.patch_jump(resume_return);
                     self.push_from_register(dst);
                 }
                 self.close_active_iterators();
